@@ -263,6 +263,7 @@ func (g *GcsEmu) handleGcsDelete(ctx context.Context, w http.ResponseWriter, buc
 		if err := validateConds(obj, conds); err != nil {
 			return err
 		}
+		verifYield("gcs.validated")
 
 		if err := g.store.Delete(bucket, filename); err != nil {
 			if os.IsNotExist(err) {
@@ -374,6 +375,7 @@ func (g *GcsEmu) handleGcsUpdateMetadataRequest(ctx context.Context, baseUrl Htt
 		if err := validateConds(obj, conds); err != nil {
 			return err
 		}
+		verifYield("gcs.validated")
 
 		// Update via json decode.
 		metagen := obj.Metageneration
@@ -675,6 +677,7 @@ func (g *GcsEmu) finishUpload(ctx context.Context, baseUrl HttpBaseUrl, obj *sto
 		if err := validateConds(existing, conds); err != nil {
 			return err
 		}
+		verifYield("gcs.validated")
 
 		if existing != nil {
 			obj.TimeCreated = existing.TimeCreated
@@ -830,6 +833,7 @@ func (g *GcsEmu) finishCompose(baseUrl HttpBaseUrl, bucket string, dst composeOb
 	if err := validateConds(dstMeta, dst.conds); err != nil {
 		return nil, err
 	}
+	verifYield("gcs.validated")
 	if dstMeta != nil {
 		meta.TimeCreated = dstMeta.TimeCreated
 	}
